@@ -107,8 +107,12 @@ func (ex *Exec) val(fr *Frame, v ssa.Value) Value {
 	if !ok {
 		panic(fmt.Sprintf("engine: no value for %s in %s", v.Name(), fr.fn))
 	}
-	if p, isP := r.(Poison); isP {
+	switch p := r.(type) {
+	case Poison:
 		panic(unsupported{"poisoned value (" + p.why + ")"})
+	case *LazyV:
+		r = ex.force(p)
+		fr.env[v] = r
 	}
 	return r
 }
